@@ -141,17 +141,41 @@ struct VAlloc {
             return;
         }
         int i = reg().find(p);
-        bool ok = i >= 0 && (char*)p == reg().cells[i].base && reg().cells[i].state == ST_DESTR;
+        // legal: after destroy(), or storage that was never constructed (construction threw)
+        bool ok = i >= 0 && (char*)p == reg().cells[i].base &&
+            (reg().cells[i].state == ST_DESTR || reg().cells[i].state == ST_ALLOC);
         if (ok) reg().cells[i].state = ST_FREED;  // quarantined: the memory is kept
         note(K_DEALLOC, i, p, 0);
         if (!ok) fault(i, p, 1);
     }
 };
 
+// thrown by Elem's constructors (the "user code" of the list) on a negative payload
+struct ElemThrow: std::exception {
+    const char* what() const noexcept override { return "elem-ctor"; }
+};
 struct Elem {
     long v;
     std::string s;
-    Elem(long x): v(x), s("payload-of-element-" + std::to_string(x) + "-long-enough-to-live-on-the-heap") {}  // NOLINT
+    struct Quiet {};
+    // user code inside allocator_traits::construct: logs K_CALL 1 in the step of the construct() scheduling
+    // point (no scheduling point of its own: the step would otherwise carry no event) and throws on a
+    // negative payload - the throw plan of a case is which pushes carry a negative value
+    static long hook(long x)
+    {
+        if (!active()) return x;
+        S().emit(K_CALL, nullptr, 1);
+        if (x < 0) {
+            S().emit(K_THROW, nullptr, 0);
+            throw ElemThrow{};
+        }
+        return x;
+    }
+    static std::string mk(long x) { return "payload-of-element-" + std::to_string(x) + "-long-enough-to-live-on-the-heap"; }
+    Elem(Quiet, long x): v(x), s(mk(x)) {}  // the driver's temporary: no user-code event
+    Elem(long x): v(hook(x)), s(mk(x)) {}  // NOLINT  emplace_*
+    Elem(Elem&& o): v(hook(o.v)), s(std::move(o.s)) {}  // push_* (node(T&&))
+    Elem(const Elem& o): v(hook(o.v)), s(o.s) {}
     long read() const
     {
         if (!active()) return v;
